@@ -681,6 +681,30 @@ func runC07(c *Ctx) {
 		canon := &c07History{Kind: "canonical", Files: []c07File{{Name: "all.fo", Defs: j.base}}}
 		co := c07Run(s, canon)
 		if !co.ok {
+			// `let fa p = p.X` with nothing typing p is accepted today (and emitted with a placeholder type);
+			// a tree that rejects it is not wrong about C07: go on without those definitions
+			strip := func(ds []c07Def) []c07Def {
+				var out []c07Def
+				for _, d := range ds {
+					if !strings.HasPrefix(d.Name, "fa") {
+						out = append(out, d)
+					}
+				}
+				return out
+			}
+			if nb := strip(j.base); len(nb) < len(j.base) {
+				j.base = nb
+				for _, h := range j.hs {
+					for fi := range h.Files {
+						h.Files[fi].Defs = strip(h.Files[fi].Defs)
+					}
+				}
+				canon = &c07History{Kind: "canonical", Files: []c07File{{Name: "all.fo", Defs: j.base}}}
+				co = c07Run(s, canon)
+				c.Count("untyped_field_access_rejected_base_rerun_without")
+			}
+		}
+		if !co.ok {
 			c.Violate("canon", "the canonical history of a generated base is rejected: "+co.err, map[string]any{"base": j.base, "histories": []*c07History{canon}}, false)
 			return
 		}
